@@ -35,6 +35,9 @@ func normalize(o *op, r obs) obs {
 // that call in isolation. It asserts nothing where the text is silent
 // (unsupported languages, combined defects, invalid UTF-8 seeds).
 func modelCheck(o *op, r obs) error {
+	if r.Skipped {
+		return nil // the argument does not fit the child's int (32-bit build)
+	}
 	desc := opString(o)
 	if r.Panic != "" {
 		return failf("model panic "+o.Kind, "%s panicked: %s", desc, r.Panic)
